@@ -461,6 +461,41 @@ Section Stmts.
 
   Definition stmt_obj (a : stmt) : nat := match a with SUpd o | SIns o | SDel o => o end.
 
+  Lemma stmt_step : forall a l s rho rv, Sig (a :: l) s rho rv -> WfL (a :: l) ->
+    forall ra sa, do_stmt a s = (ra, sa) -> ra <> Unmodelled ->
+                (ra = Ok -> exists rho1 rv1, Sig l sa rho1 rv1 /\
+                    (forall x, x <> stmt_obj a -> rho1 x = rho x /\ rv1 x = rv x /\ objs sa x = objs s x) /\
+                    (match a with SDel o => rho1 o = None /\ odid (objs sa o) <> None /\ odv (objs sa o) <> None
+                                | _ => rho1 (stmt_obj a) <> None end)) /\
+                (ra <> Ok -> SigL sa).
+  Proof.
+    intros a l s rho rv S W. assert (Wt := WfL_tail _ _ W). destruct W as [W1 W2].
+    assert (Hna : ~ In a l) by (inversion W1; auto).
+    intros ra sa Ha Hra. destruct a as [o|o|o]; cbn [do_stmt stmt_obj] in *.
+        - destruct (update_step l s rho rv o ra sa S) as [A B]; auto;
+            try (intros X; apply (W2 o); [left; auto|right; auto]);
+            try (split; auto; intros E; destruct (A E) as [r1 [v1 [A1 [A2 A3]]]]; exists r1, v1; auto).
+        - destruct (insert_step l s rho rv o ra sa S) as [A B]; auto;
+            try (split; auto; intros E; destruct (A E) as [r1 [v1 [A1 [A2 A3]]]]; exists r1, v1; auto).
+        - destruct (delete_step l s rho rv o ra sa S) as [A B]; auto;
+            try (intros X; apply (W2 o); [right; auto|left; auto]);
+            try (split; auto; intros E; destruct (A E) as [r1 [v1 [A1 [A2 A3]]]]; exists r1, v1; auto).
+  Qed.
+
+  (* a run that stops inside the list (C32: an injected failure) *)
+  Lemma stmts_prefix : forall pre suf s rho rv r s',
+    Sig (pre ++ suf) s rho rv -> WfL (pre ++ suf) -> foldM do_stmt pre s = (r, s') -> r <> Unmodelled -> SigL s'.
+  Proof.
+    induction pre as [|a pre IH]; intros suf s rho rv r s' S W H Hr.
+    - inversion H; subst. exact (sg_l _ _ _ _ S).
+    - cbn [foldM] in H. apply bind_inv in H. cbn [app] in S, W.
+      destruct H as [[s1 [H1 H2]]|[H1 Hn]].
+      + destruct (stmt_step a (pre ++ suf) s rho rv S W Ok s1 H1) as [A _]; [discriminate|].
+        destruct (A eq_refl) as [rho1 [rv1 [S1 _]]].
+        exact (IH suf s1 rho1 rv1 r s' S1 (WfL_tail _ _ W) H2 Hr).
+      + destruct (stmt_step a (pre ++ suf) s rho rv S W r s' H1 Hr) as [_ B]. apply B. exact Hn.
+  Qed.
+
   Lemma stmts_fold : forall l s rho rv r s',
     Sig l s rho rv -> WfL l -> foldM do_stmt l s = (r, s') -> r <> Unmodelled ->
     (r = Ok -> exists rho' rv', Sig [] s' rho' rv' /\
